@@ -233,3 +233,21 @@ M('store_default_shared_typed', 'C14', 'a typed default of 0 is treated as "no d
   'rxsci/state/memory_store.py', "        elif self.default_value is not None:", "        elif self.default_value:")
 M('store_uint_signed', 'C14', "'uint' states use a signed array (values >= 2**63 overflow)",
   'rxsci/state/memory_store.py', "            self.create_values = functools.partial(array, 'Q')", "            self.create_values = functools.partial(array, 'q')")
+
+# ---- C16
+M('z_no_eof_check', 'C16', 'z.decompress completes even when the gzip stream is truncated',
+  'rxsci/compression/z.py', "                    if not decompressor.eof:", "                    if False:")
+M('zstd_eof_only_when_data', 'C16', 'zstd.decompress only checks the end-of-stream marker when some data was produced',
+  'rxsci/compression/zstd.py', "                    if not decompressor.eof:", "                    if not decompressor.eof and decompressor.unused_data == b'x':")
+M('z_compress_flush_lost', 'C16', 'z.compress drops the output of flush() when it is shorter than 16 bytes (small inputs lose their trailer)',
+  'rxsci/compression/z.py', "                    data = compressor.flush()\n                    observer.on_next(data)", "                    data = compressor.flush()\n                    if len(data) >= 16:\n                        observer.on_next(data)")
+M('zstd_skip_tiny_chunks', 'C16', 'zstd.decompress ignores 1-byte input chunks',
+  'rxsci/compression/zstd.py', "                    data = decompressor.decompress(i) if len(i) > 0 else b''", "                    data = decompressor.decompress(i) if len(i) > 1 else b''")
+
+# ---- C17
+M('decode_not_incremental', 'C17', 'decode defaults to incremental=False (each chunk decoded on its own)',
+  'rxsci/data/codec.py', "def decode(encoding='utf8', incremental=True):", "def decode(encoding='utf8', incremental=False):")
+M('encode_new_encoder_per_item', 'C17', 'encode creates a new incremental encoder per item (BOM repeated)',
+  'rxsci/data/codec.py', "                if incremental:\n                    data = encoder.encode(i)", "                if incremental:\n                    data = codecs.getincrementalencoder(encoding)().encode(i)")
+M('decode_no_final_flush', 'C17', 'decode replaces undecodable tail bytes at a chunk boundary (errors=replace on the incremental decoder)',
+  'rxsci/data/codec.py', "                decoder = codecs.getincrementaldecoder(encoding)()", "                decoder = codecs.getincrementaldecoder(encoding)('replace')\n                decoder_decode = decoder.decode\n                decoder.decode = lambda b, final=False: decoder_decode(b, True)")
